@@ -20,8 +20,6 @@ def register(add):
         note='callees abstract (frame + what they were applied to): ep_is_infty, ep_norm, ep_pck, fp_get_bit, fp_write_bin; memset is the CBMC library model; '
              'longjmp stub of this unit checks the exceptional postcondition', bound_note='memset of the buffer (<= 67 bytes) unwound; otherwise loop-free')
 
-    import os
-    STRICT = bool(os.environ.get('C07X_STRICT'))     # also register the *.strict units: the clauses the property demands and the code does not meet (findings)
     R, Q = S('r'), S('q')
     EP2 = ['c07x_ep2.h', 'c07x_ep2_state.h']
     add('fp2_read_bin', P, 'fp2_read_bin', sources=['src/fpx/relic_fpx_util.c'], headers=EP2, conf='base', route='proof', defines=['VC_C07X_FP2R'],
@@ -50,10 +48,10 @@ def register(add):
              'longjmp stub of this unit checks the exceptional postcondition', bound_note='memset of the buffer (<= 131 bytes) unwound; otherwise loop-free')
     PT = ['c07x_pt.h', 'c07x_pt_state.h']
     Bs = S('b')
-    add('fb_read_bin', P, 'fb_read_bin', sources=['src/fb/relic_fb_util.c', 'src/bn/relic_bn_mem.c'], headers=PT, conf='base', route='proof', defines=['VC_C07X_FBR'],
+    add('fb_read_bin', P, 'fb_read_bin', sources=['src/fb/relic_fb_util.c', 'src/bn/relic_bn_mem.c'], headers=PT, conf='base', route='proof', defines=['VC_C07X_FBR', 'VC_CUSTOM_LONGJMP'],
         unwind=40, decls='dig_t *a; const uint8_t *bin; size_t len;', call='fb_read_bin(a, bin, len)', flags=['--object-bits', '9'],
-        replace=[Bs('bn_read_bin'), Bs('fb_copy')],
-        note='callees abstract (frame + what they were applied to): bn_read_bin, fb_copy; bn_make inlined. The degree check the property demands does not exist in the code (finding)', bound_note='loop-free after callee replacement')
+        replace=[Bs('bn_read_bin'), Bs('bn_bits'), Bs('fb_copy')], expect=('postcondition', 'assertion'),
+        note='callees abstract (frame + verdict + what they were applied to): bn_read_bin, bn_bits, fb_copy; bn_make inlined; longjmp stub of this unit checks the exceptional postcondition', bound_note='loop-free after callee replacement')
     add('eb_read_bin', P, 'eb_read_bin', sources=['src/eb/relic_eb_util.c'], headers=PT, conf='base', route='proof', defines=['VC_C07X_EBR'],
         unwind=40, decls='eb_st *a; const uint8_t *bin; size_t len;', call='eb_read_bin(a, bin, len)', flags=['--object-bits', '9'],
         replace=[R('eb_set_infty'), R('fb_set_dig'), R('fb_read_bin'), R('fb_zero'), R('fb_set_bit'), R('eb_upk'), R('eb_on_curve')],
@@ -71,17 +69,27 @@ def register(add):
     add('fp12_read_bin', P, 'fp12_read_bin', sources=[FPX], headers=GT, conf='base', route='proof', defines=['VC_C07X_FP12R'],
         unwind=40, decls='fp6_t *a; const uint8_t *bin; size_t len;', call='fp12_read_bin(a, bin, len)', flags=['--object-bits', '9'],
         replace=[T('fp2_zero'), T('fp2_read_bin'), T('fp6_read_bin'), T('fp12_back_cyc'), T('fp12_test_cyc')],
-        note='callees abstract (frame + what they were applied to): fp2_zero, fp2_read_bin, fp6_read_bin, fp12_back_cyc; gt_read_bin is a macro for this function in the shipped configuration', bound_note='loop-free')
+        note='callees abstract (frame + verdict + what they were applied to): fp2_zero, fp2_read_bin, fp6_read_bin, fp12_back_cyc, fp12_test_cyc; gt_read_bin is a macro for this function in the shipped configuration', bound_note='loop-free')
     add('fp12_write_bin', P, 'fp12_write_bin', sources=[FPX], headers=GT, conf='base', route='proof', defines=['VC_C07X_FP12W', 'VC_CUSTOM_LONGJMP'],
         unwind=40, decls='uint8_t *bin; size_t len; const fp6_t *a; int pack;', call='fp12_write_bin(bin, len, a, pack)', flags=['--object-bits', '9'], expect=('postcondition', 'assertion'),
-        replace=[U('fp12_pck'), U('fp2_write_bin'), U('fp6_write_bin')],
-        note='callees abstract (frame + what they were applied to): fp12_pck, fp2_write_bin, fp6_write_bin; longjmp stub of this unit checks the exceptional postcondition', bound_note='loop-free')
+        replace=[U('fp12_test_cyc'), U('fp12_pck'), U('fp2_write_bin'), U('fp6_write_bin')],
+        note='callees abstract (frame + verdict + what they were applied to): fp12_test_cyc, fp12_pck, fp2_write_bin, fp6_write_bin; longjmp stub of this unit checks the exceptional postcondition', bound_note='loop-free')
     add('fp12_size_bin', ['C07'], 'fp12_size_bin', sources=[FPX], headers=GT, conf='base', route='proof', defines=['VC_C07X_FP12S'],
         unwind=8, decls='fp6_t *a; int pack;', call='fp12_size_bin(a, pack)', replace=[T('fp12_test_cyc')], note='fp12_test_cyc abstract (verdict recorded)', bound_note='loop-free')
-    if STRICT:
-        add('fp2_read_bin.strict', P, 'fp2_read_bin', sources=['src/fpx/relic_fpx_util.c'], headers=EP2, conf='base', route='proof', defines=['VC_C07X_FP2R', 'VC_C07X_STRICT'],
-            unwind=40, decls='fp_t *a; const uint8_t *bin; size_t len;', call='fp2_read_bin(a, bin, len)', flags=['--object-bits', '9'],
-            replace=[Q('fp_read_bin'), Q('fp_zero'), Q('fp_set_bit'), Q('fp2_upk')], note='EXPECTED TO FAIL on the current library: sign byte > 1 accepted, result of fp2_upk ignored', bound_note='loop-free')
-        add('fp12_read_bin.strict', P, 'fp12_read_bin', sources=[FPX], headers=GT, conf='base', route='proof', defines=['VC_C07X_FP12R', 'VC_C07X_STRICT'],
-            unwind=40, decls='fp6_t *a; const uint8_t *bin; size_t len;', call='fp12_read_bin(a, bin, len)', flags=['--object-bits', '9'],
-            replace=[T('fp2_zero'), T('fp2_read_bin'), T('fp6_read_bin'), T('fp12_back_cyc'), T('fp12_test_cyc')], note='EXPECTED TO FAIL on the current library: no subgroup test after decompression', bound_note='loop-free')
+    PTW = ['c07x_ptw.h', 'c07x_ptw_state.h']
+    for cv, fe, src in (('eb', 'fb', 'src/eb/relic_eb_util.c'), ('ed', 'fp', 'src/ed/relic_ed_util.c')):
+        add(cv + '_size_bin', ['C07'], cv + '_size_bin', sources=[src], headers=PTW, conf='base', route='proof', defines=['VC_C07X_%sS' % cv.upper()],
+            unwind=4, decls='const %s_st *a; int pack;' % cv, call='%s_size_bin(a, pack)' % cv, replace=[W(cv + '_is_infty')],
+            note='%s_is_infty abstract (verdict recorded)' % cv, bound_note='loop-free')
+        add(cv + '_write_bin', P, cv + '_write_bin', sources=[src], headers=PTW, conf='base', route='proof', defines=['VC_C07X_%sW' % cv.upper(), 'VC_CUSTOM_LONGJMP'],
+            unwind=80, decls='uint8_t *bin; size_t len; const %s_st *a; int pack;' % cv, call='%s_write_bin(bin, len, a, pack)' % cv, flags=['--object-bits', '9'],
+            replace=[W(cv + '_is_infty'), W(cv + '_norm'), W(cv + '_pck'), W(fe + '_get_bit'), W(fe + '_write_bin')], expect=('postcondition', 'assertion'),
+            note='callees abstract (frame + what they were applied to): %s_is_infty, %s_norm, %s_pck, %s_get_bit, %s_write_bin; memset is the CBMC library model; '
+                 'longjmp stub of this unit checks the exceptional postcondition' % (cv, cv, cv, fe, fe), bound_note='memset of the buffer (<= 75 bytes) unwound; otherwise loop-free')
+    add('fb_write_bin', P, 'fb_write_bin', sources=['src/fb/relic_fb_util.c', 'src/bn/relic_bn_mem.c'], headers=PTW, conf='base', route='proof', defines=['VC_C07X_FBW'],
+        unwind=40, decls='uint8_t *bin; size_t len; const dig_t *a;', call='fb_write_bin(bin, len, a)', flags=['--object-bits', '9'],
+        replace=[S('f')('bn_read_raw'), S('f')('bn_write_bin')],
+        note='callees abstract (frame + what they were applied to): bn_read_raw, bn_write_bin; bn_make inlined', bound_note='loop-free after callee replacement')
+    add('fp6_write_bin', P, 'fp6_write_bin', sources=[FPX], headers=PTW, conf='base', route='proof', defines=['VC_C07X_FP6W'],
+        unwind=40, decls='uint8_t *bin; size_t len; const fp2_t *a;', call='fp6_write_bin(bin, len, a)', flags=['--object-bits', '9'],
+        replace=[S('x')('fp2_write_bin')], note='fp2_write_bin abstract (frame + which coefficient to which offset)', bound_note='loop-free')
